@@ -111,6 +111,74 @@ def fresh_read(root, rec=None):
     return pf, dsfs.values(pf.to_pandas())
 
 
+
+# ---------------------------------------------------------------------------------------------
+# function-against-function tie of Dataset/FsPaths.v (part names) with api.PART_ID / writer.find_max_part
+# ---------------------------------------------------------------------------------------------
+def gen_path(rng):
+    """mostly part-file-like ASCII paths, with the boundary shapes of the regular expression"""
+    r = rng.random()
+    num = rng.choice(["0", "7", "12", "007", "123456789012", "", "1a", "9"])
+    sep1 = rng.choice([".", ".", ".", "", "-", "0", "x", "/"])
+    sep2 = rng.choice([".", ".", ".", "", "_", "5"])
+    d = rng.choice(["", "", "k=1/", "k=1/j=u/", "part.3.parquet/", "apart/", "a b/", "k=part.9.parquet/"])
+    tail = rng.choice(["parquet", "parquet", "parquet", "parquet ", "parq", "parquet.gz", "PARQUET"])
+    stem = rng.choice(["part", "part", "part", "par", "xpart", "partpart", "Part"])
+    if r < 0.1:
+        return rng.choice(["_metadata", "_common_metadata", "", "part", "part..parquet", "part.1.parquet\n", "a\npart.1.parquet", ".parquet"])
+    return d + stem + sep1 + num + sep2 + tail
+
+
+def real_part_id(path):
+    from fastparquet.api import PART_ID
+    m = PART_ID.match(path)
+    return [] if m is None else [int(m["i"])]
+
+
+def real_find_max_part(paths):
+    import types
+    from fastparquet.writer import find_max_part
+    rgs = [types.SimpleNamespace(columns=[types.SimpleNamespace(file_path=p)]) for p in paths]
+    try:
+        return [find_max_part(rgs)]
+    except TypeError:
+        return []
+
+
+def blocks_of(trace):
+    """recorded fault-free trace -> (partitioned, row groups as [[dir, [chunks]] ...], md chunks, cmd chunks, normalised trace)"""
+    files, order, mk = {}, [], False
+    norm = []
+    closed = set()
+    for c in trace:
+        if c[0] == "mkdir":
+            mk = True
+            norm.append(["mkdir", c[1].encode()])
+        elif c[0] == "openw":
+            files[c[1]] = []
+            order.append(c[1])
+            closed.discard(c[1])
+            norm.append(["openw", c[1].encode(), 1 if c[2] else 0])
+        elif c[0] == "write":
+            files[c[1]].append(bytes(c[2]))
+            norm.append(["write", c[1].encode(), bytes(c[2])])
+        elif c[0] == "close":
+            if c[1] not in closed:              # a second close of the same handle is a no-op
+                norm.append(["close", c[1].encode()])
+            closed.add(c[1])
+        else:
+            norm.append(list(c))
+    rgs, last = [], None
+    for f in order:
+        if f in (dsfs.MD, dsfs.CMD):
+            continue
+        d, _, name = f.rpartition("/")
+        if name != last:
+            rgs.append([])
+            last = name
+        rgs[-1].append([d.encode(), files[f]])
+    return mk, rgs, files.get(dsfs.MD, []), files.get(dsfs.CMD, []), norm
+
 # ---------------------------------------------------------------------------------------------
 def run_scenario(arg):
     """Worker: everything that touches the real code for one scenario.  Returns plain data."""
@@ -274,6 +342,20 @@ def run(ctx):
         results = pool.map_async(run_scenario, args, chunksize=1).get(timeout=900 if ctx.quick() else 3000)
     pq = C.Pqref()
     by_id = {sc["id"]: sc for sc in scs}
+    # ---- FsPaths.part_id / find_max_part against api.PART_ID / writer.find_max_part
+    npaths = 600 if ctx.quick() else 6000
+    paths = sorted(set(gen_path(rng) for _ in range(npaths)))
+    mo = pq.batch([("part_id", p.encode()) for p in paths])
+    for p_, m in zip(paths, mo):
+        ctx.correspondence("FsPaths.part_id ~ api.PART_ID.match(path)['i']", {"path": p_}, m, real_part_id(p_))
+    ctx.count("part_id_paths", len(paths))
+    good = [p_ for p_ in paths if real_part_id(p_)]
+    lists = [[rng.choice(good) for _ in range(rng.choice([0, 1, 2, 5]))] + ([rng.choice(paths)] if rng.random() < 0.2 else [])
+             for _ in range(100 if ctx.quick() else 1000)]
+    mo = pq.batch([("find_max_part", [p_.encode() for p_ in l]) for l in lists])
+    for l, m in zip(lists, mo):
+        ctx.correspondence("FsPaths.find_max_part ~ writer.find_max_part", {"paths": l}, m, real_find_max_part(l))
+    model_trace = {"equal": 0, "different": 0, "examples": []}
     cmds, meta = [], []
     for res in results:
         sc = by_id[res["id"]]
@@ -318,6 +400,11 @@ def run(ctx):
                 extra = sorted(set(r["read_opens"]) - allowed)
                 ctx.correspondence("fresh open reads only _metadata and the files it references", short, [], extra)
             # tie 3: FS model replay of the recorded trace vs the real directory (runs recorded with data)
+            if "snap0" in r and r["raised"] is None:
+                # information (DESIGN 4.2): is the deterministic model trace exactly what the code did?
+                pt, rgs, mdc, cmdc, norm = blocks_of(r["trace"])
+                cmds.append(("append_trace", [p.encode() for p in refs], 1 if pt else 0, rgs, mdc, cmdc))
+                meta.append(("model", short, norm))
             if "snap0" in r:
                 cmds.append(("fs_run", [[k.encode(), v] for k, v in sorted(r["snap0"].items())], dsfs.sx_trace(r["trace"])))
                 meta.append(("fs", short, r))
@@ -325,6 +412,13 @@ def run(ctx):
     if len(outs) != len(cmds):
         raise RuntimeError("pqref answered %d of %d commands" % (len(outs), len(cmds)))
     for (kind, short, r), o in zip(meta, outs):
+        if kind == "model":
+            mt = [[bytes(x) if isinstance(x, (bytes, bytearray)) else x for x in c] for c in o[0]] if isinstance(o, list) and o else o
+            same = mt == [[x.encode() if isinstance(x, str) else x for x in c] for c in r]
+            model_trace["equal" if same else "different"] += 1
+            if not same and len(model_trace["examples"]) < 3:
+                model_trace["examples"].append({"scenario": short["scenario"], "model": str(mt)[:600], "recorded": str(r)[:600]})
+            continue
         if kind == "safe":
             ok = ctx.correspondence("check_safe_trace(recorded trace of the real append) = true", short, 1, o)
             if not ok and len(ctx.broken) and "trace" not in ctx.broken[-1]:
@@ -335,6 +429,9 @@ def run(ctx):
                                dict(sorted(model.items())) if isinstance(model, dict) else model,
                                dict(sorted(dsfs.hashes(r["snap1"]).items())))
     pq.close()
+    ctx.extra["model_trace_vs_recorded_fault_free_trace"] = model_trace
+    ctx.notes.append("Ops.append_trace (witness of the relation) equals the recorded fault-free call trace in %d of %d scenarios (information, not an obligation)" % (
+        model_trace["equal"], model_trace["equal"] + model_trace["different"]))
 
 
 def replay(rep):
